@@ -179,9 +179,13 @@ class _SocksMachine(object):
         if len(self._data) < (5 + addrlen + 2):
             return
         addr = self._data[5:5 + addrlen]
-        # port = struct.unpack('H', self._data[5 + addrlen:5 + addrlen + 2])[0]
+        port = struct.unpack('H', self._data[5 + addrlen:5 + addrlen + 2])[0]
         self._data = self._data[5 + addrlen + 2:]
-        self.reply_domain_name(addr)
+        if self._req_type == 'CONNECT':
+            # the bound address of a successful CONNECT may be a name
+            self.reply_ipv4(addr, port)
+        else:
+            self.reply_domain_name(addr)
 
     @_machine.output()
     def _parse_request_reply(self):
